@@ -152,13 +152,15 @@ fn generate_backpressure(rng: &mut Rng) -> ConnScenario {
         acc += chunk.len();
         call += 1;
     }
-    for _ in 0..call {
+    // a third of the time the hold is aimed at the frame after the Keep Alive instead: the timeout Disconnect
+    let at_disconnect = rng.chance(1, 3) && refo.result == "MissedKeepAlive";
+    for _ in 0..call + usize::from(at_disconnect) {
         sc.wplan.push(WRule::Accept { max: 1_000_000 });
     }
     if rng.chance(1, 2) {
         sc.wplan.push(WRule::Accept { max: rng.range(1, 9) as usize });
     }
-    let t_ka = refo.view.packets[ki].t_ns;
+    let t_ka = if at_disconnect { refo.view.packets.iter().find(|p| p.kind == "Disconnect").map(|p| p.t_ns).unwrap_or(refo.view.packets[ki].t_ns) } else { refo.view.packets[ki].t_ns };
     let next_done = ["discovery", "filter", "strategy"].iter().filter_map(|n| refo.log.iter().find(|e| e.actor == format!("svc:{n}") && e.kind == "done").map(|e| (format!("{n}_done"), e.t_ns))).filter(|(_, t)| *t > t_ka && *t - t_ka < secs(10)).min_by_key(|(_, t)| *t);
     match next_done {
         Some((name, _)) if rng.chance(3, 4) => sc.wplan.push(WRule::PendEvent { name, ns: *rng.pick(&[0u64, 1_000_000, 700_000_000]) }),
